@@ -84,7 +84,9 @@ def gen_case(rng):
                 elif mode.startswith("key"):
                     rv = ", reverse" if "reverse" in mode and any(t in dcmp for t in ("Ord", "PartialOrd")) else ""
                     # the key expression may mention `Self` (it is written inside impls)
+                    # .. and may borrow from a temporary it creates (fine as long as the value is used within the same expression)
                     kx = rng.choice([f"{D}g_key(&$)", f"{D}g_key(&$)", f"{{ let _ = ::core::marker::PhantomData::<Self>; {D}g_key(&$) }}",
+                                     f"{D}g_key(&$).to_string().as_str()", f"::std::vec![{D}g_key(&$), 1u8].as_slice()",
                                      f"({D}g_key(&$), ::core::mem::size_of::<::core::option::Option<&Self>>()).0"])
                     f["attrs"].append(f"#[ord(key = {kx}{rv})]")
                 else:
